@@ -12,7 +12,7 @@ from .ops import key_of, wrap_bool, wrap_int, wrap_str, zint, zbool, zstr
 from .interp import Interp, Frame, PyRaise, INLINE, LoopSpec, is_generator_node
 
 MUTATORS = {"append", "add", "update", "extend", "pop", "clear", "remove", "insert", "setdefault", "discard",
-            "popitem", "sort", "reverse"}
+            "popitem", "sort", "reverse", "difference_update", "intersection_update", "symmetric_difference_update"}
 
 
 class Machine(Interp):
@@ -210,6 +210,8 @@ class Machine(Interp):
                 return self.call_func(f[2], [v, k], {})
         if isinstance(v, (ClassInfo, ExtClass)):
             return v    # Generic[T] subscription
+        if isinstance(v, Opaque) and hasattr(v, "m_getitem"):
+            return v.m_getitem(self, k)
         hook = self.spec.opaque_hooks.get("getitem")
         if hook:
             return hook(self, v, k)
@@ -234,6 +236,8 @@ class Machine(Interp):
             if f and f[1] == "method":
                 self.call_func(f[2], [v, k, val], {})
                 return
+        if isinstance(v, Opaque) and hasattr(v, "m_setitem"):
+            return v.m_setitem(self, k, val)
         hook = self.spec.opaque_hooks.get("setitem")
         if hook:
             return hook(self, v, k, val)
@@ -335,6 +339,8 @@ class Machine(Interp):
             f = fn.cls.find("__call__", self.loader)
             if f and f[1] == "method":
                 return self.call_func(f[2], [fn] + list(args), kwargs)
+        if isinstance(fn, Opaque) and hasattr(fn, "m_call"):
+            return fn.m_call(self, list(args), kwargs)
         if isinstance(fn, Opaque):
             hook = self.spec.opaque_hooks.get("call")
             if hook:
@@ -495,7 +501,16 @@ class Machine(Interp):
         if kwargs:
             self.raise_("TypeError", f"{cls.name}.__init__() got an unexpected keyword argument {next(iter(kwargs))}")
         dfr = Frame(self, cls.module)
+        initvars = []
         for f in fields:
+            if f.initvar:
+                if f.name in given:
+                    initvars.append(given[f.name])
+                elif f.has_default and f.default is not None:
+                    initvars.append(self.ev(f.default, Frame(self, f.owner.module)))
+                else:
+                    self.raise_("TypeError", f"{cls.name}.__init__() missing required argument {f.name}")
+                continue
             if f.name in given:
                 val = given[f.name]
             elif f.default_factory is not None:
@@ -511,7 +526,7 @@ class Machine(Interp):
             self.setattr(obj, f.name, val)
         pi = cls.find("__post_init__", self.loader)
         if pi and pi[1] == "method":
-            self.call_func(pi[2], [obj], {})
+            self.call_func(pi[2], [obj] + initvars, {})
 
     def instantiate_ext(self, cls, args, kwargs):
         nm = cls.name.split(".")[-1]
@@ -598,6 +613,8 @@ class Machine(Interp):
             return self.to_list(v.fields["__data__"])
         if isinstance(v, (GenObj, Obj)):
             return list(self.iterate(v))
+        if isinstance(v, Opaque) and hasattr(v, "m_iter"):
+            return self.to_list(v.m_iter(self))
         if isinstance(v, SymStream):
             hook = self.spec.opaque_hooks.get("materialize")
             if hook:
